@@ -81,6 +81,7 @@ struct PSpLin : TPBase
       case 5: x(i) = 0; break;
       default: x(i) = 100 * u; break;
       }
+      x(i) = snap(x(i));
     }
     return Args{x};
   }
